@@ -375,7 +375,55 @@ func TestC18(t *testing.T) {
 	rep.Extra["cases"] = caseSummaries
 	rep.Extra["preemption_bound"] = bound
 	rep.Extra["max_schedules_per_case"] = maxExec
+	// the goroutine structure of the REAL rpc watcher (block poller, per-registration observers, the
+	// dispatcher between them) under virtual time, with callbacks that take a while
+	wv, wcov := c18Watchers()
+	rep.Violations = append(rep.Violations, wv...)
+	if l, ok := wcov["internal"].([]string); ok {
+		rep.Internal = append(rep.Internal, l...)
+		delete(wcov, "internal")
+	}
+	for k, v := range wcov {
+		rep.Extra[k] = v
+	}
 	rep.Need = []string{"completed"}
 	rep.Assumptions = []string{"interleavings with more preemptions than the bound are not explored", "goroutines inside the simulated services do not exist; the watcher's polling loops are replaced by direct HandleCsvTx calls", mc.CommonAssumptions[0]}
 	finishEnum(t, rep)
+}
+
+// c18Watchers: block histories (blocks, reorgs, faults, registrations at any time) against the real
+// BlockchainRpcTxWatcher with all its goroutines running under virtual time and with callbacks that
+// take 2.5 s; 8 s after the last event nobody may still be waiting for a lock of the watcher.
+func c18Watchers() ([]mc.Violation, map[string]any) {
+	out := fmt.Sprintf("%s/c18w-%d.json", workDir, os.Getpid())
+	cmd := exec.Command(os.Args[0], "-test.run", "^TestC20$", "-test.timeout", "0")
+	cmd.Env = append(os.Environ(), "VERIF_C20_ONLY=rpc-", "VERIF_C20_SLOWCB=1", "VERIF_C20_EXPORT="+out)
+	ob, err := cmd.CombinedOutput()
+	b, rerr := os.ReadFile(out)
+	cov := map[string]any{}
+	if rerr != nil {
+		cov["internal"] = []string{fmt.Sprintf("c18 watcher sub-check failed: %v\n%s", err, tail(string(ob), 3000))}
+		return nil, cov
+	}
+	_ = os.Remove(out)
+	var rep struct {
+		Violations []mc.Violation   `json:"violations"`
+		States     int              `json:"states"`
+		Executions int              `json:"executions"`
+		Families   []map[string]any `json:"families"`
+		Internal   []string         `json:"internal"`
+		Exhaustive bool             `json:"exhaustive"`
+	}
+	_ = json.Unmarshal(b, &rep)
+	var vs []mc.Violation
+	for _, v := range rep.Violations {
+		if i := strings.Index(v.Key, "goroutine_waits_for_watcher_lock_forever:"); i >= 0 {
+			vs = append(vs, mc.Violation{Property: "C18", Key: "deadlock:watcher:" + v.Key[i+len("goroutine_waits_for_watcher_lock_forever:"):], Detail: v.Detail, History: v.History, Scenario: "watcher:" + v.Scenario})
+		}
+	}
+	if len(rep.Internal) > 0 {
+		cov["internal"] = rep.Internal
+	}
+	cov["watcher_subcheck"] = map[string]any{"rule": "all block histories of the rpc-watcher families (see C20) with callbacks that take 2.5 s of virtual time, so that blocks, reorgs and registrations arrive while a callback runs; 8 s after the last event no goroutine may wait for a watcher lock", "states": rep.States, "executions": rep.Executions, "exhaustive": rep.Exhaustive}
+	return vs, cov
 }
